@@ -360,7 +360,10 @@ func (t *Teamserver) Start() {
 				}
 			)
 
-			err = json.Unmarshal([]byte(listener["Config"]), &Data)
+			/* numbers (the kill date) are kept exact */
+			decoder := json.NewDecoder(strings.NewReader(listener["Config"]))
+			decoder.UseNumber()
+			err = decoder.Decode(&Data)
 			if err != nil {
 				logger.Error("Failed to unmarshal json bytes to map: " + err.Error())
 				continue
@@ -375,6 +378,41 @@ func (t *Teamserver) Start() {
 			HandlerData.Headers = strings.Split(Data["Headers"].(string), ", ")
 			HandlerData.Uris = strings.Split(Data["Uris"].(string), ", ")
 			HandlerData.BehindRedir = t.Profile.Config.Demon.TrustXForwardedFor
+
+			/* the rest of what has been saved with the listener */
+			if val, ok := Data["PortConn"].(string); ok {
+				HandlerData.PortConn = val
+			}
+			if val, ok := Data["HostHeader"].(string); ok {
+				HandlerData.HostHeader = val
+			}
+			if val, ok := Data["Methode"].(string); ok {
+				HandlerData.Methode = val
+			}
+			if val, ok := Data["WorkingHours"].(string); ok {
+				HandlerData.WorkingHours = val
+			}
+			if val, ok := Data["KillDate"].(json.Number); ok {
+				HandlerData.KillDate, _ = val.Int64()
+			}
+			if val, ok := Data["Proxy Enabled"].(bool); ok {
+				HandlerData.Proxy.Enabled = val
+			}
+			if val, ok := Data["Proxy Type"].(string); ok {
+				HandlerData.Proxy.Type = val
+			}
+			if val, ok := Data["Proxy Host"].(string); ok {
+				HandlerData.Proxy.Host = val
+			}
+			if val, ok := Data["Proxy Port"].(string); ok {
+				HandlerData.Proxy.Port = val
+			}
+			if val, ok := Data["Proxy Username"].(string); ok {
+				HandlerData.Proxy.Username = val
+			}
+			if val, ok := Data["Proxy Password"].(string); ok {
+				HandlerData.Proxy.Password = val
+			}
 
 			HandlerData.Secure = false
 			if Data["Secure"].(string) == "true" {
@@ -440,13 +478,22 @@ func (t *Teamserver) Start() {
 				}
 			)
 
-			err := json.Unmarshal([]byte(listener["Config"]), &Data)
+			decoder := json.NewDecoder(strings.NewReader(listener["Config"]))
+			decoder.UseNumber()
+			err := decoder.Decode(&Data)
 			if err != nil {
 				logger.Debug("Failed to unmarshal json bytes to map: " + err.Error())
 				continue
 			}
 
 			HandlerData.PipeName = Data["PipeName"].(string)
+
+			if val, ok := Data["WorkingHours"].(string); ok {
+				HandlerData.WorkingHours = val
+			}
+			if val, ok := Data["KillDate"].(json.Number); ok {
+				HandlerData.KillDate, _ = val.Int64()
+			}
 
 			if err := t.ListenerStart(handlers.LISTENER_PIVOT_SMB, HandlerData); err != nil && err.Error() != "listener already exists" {
 				logger.SetStdOut(os.Stderr)
